@@ -19,6 +19,8 @@ from harness.lib import duck, sqlnorm
 
 def squared_cols(m, q, columns):
     sq = set()
+    if q.get("ungrouped"):
+        return [False for _ in columns]
     for ref in q["metrics"]:
         x = next((x for x in m["measures"] if x["name"] == ref.split(".")[1]), None)
         if x and x["agg"] in ("stddev", "stddev_pop"):
@@ -128,6 +130,7 @@ def check_case(ck, case, ans, stats):
         same, a, b = False, repr(e), ""
     if not same:
         stats["disagree"] += 1
+        case["_mismatch"] = True
         if stats["disagree"] <= 4:
             ck.obligation("correspondence C01 (structural): compile() SQL vs toSql(genSingle)", False, f"real: {a[:900]} || model: {b[:900]} || case={canon(strip(case))[:600]}")
     # (B) behavioural: model eval vs DuckDB
@@ -162,6 +165,7 @@ def check_case(ck, case, ans, stats):
         ck.fail_input(f"single-model query result differs from the defined aggregates: {why}",
                       {"case": strip(case), "real_rows": duck.show(real["rows"]), "expected_body": [[str(v) for v in r] for r in spec[:12]], "sql": real["sql"]},
                       finding_key=key)
+    stats["covered"] = stats.get("covered", 0) + (1 if ans.get("covered") else 0)
     if len(table["rows"]) >= 2 and (q["metrics"] or q["dims"]):
         stats["nontrivial"].add(canon(strip(case)))
 
@@ -176,6 +180,10 @@ def classify(case):
         for c in filter_cols(f):
             if c in aliased and c in q["metrics"]:
                 return "F20-having-aliased-metric"
+    for ref in q["metrics"]:
+        x = next((x for x in case["model"]["measures"] if x["name"] == ref.split(".")[1]), None)
+        if x and x["agg"] == "count" and x.get("sql") is not None and not x.get("star") and x.get("filters"):
+            return "F21-filtered-count-expr"
     return None
 
 
@@ -186,6 +194,44 @@ def filter_cols(e):
         for v in e.values():
             if isinstance(v, dict):
                 yield from filter_cols(v)
+
+
+def directed_search(ck, suspects, stats):
+    """A correspondence broke: look for a concrete failing input by replaying the suspect (model, query)
+    pairs on many more adversarial tables and comparing the real rows with the reference semantics."""
+    rng = ck.rng
+    budget = 60 if ck.tier == "thorough" else 25
+    todo = []
+    for c in suspects[:12]:
+        for _ in range(budget):
+            t = S.gen_table(rng, rng.choice([8, 20, 30, 30]))
+            cc = {"op": "c01", "model": c["model"], "query": dict(c["query"], order_by=[], limit=None, offset=None), "table": t, "_search": True}
+            real = S.run_real(cc["model"], t, cc["query"])
+            real.pop("layer", None)
+            cc["_real"] = real
+            todo.append(cc)
+    send = []
+    for c in todo:
+        t = c["table"]
+        real = c["_real"]
+        if c["model"].get("sql") and "source_rows" in real:
+            t = {"cols": real["source_rows"]["cols"], "rows": [[S.py_to_json_val(v) for v in r] for r in real["source_rows"]["rows"]]}
+        send.append({"op": "c01", "model": c["model"], "query": c["query"], "table": t})
+    answers = Driver().run(send)
+    for c, a in zip(todo, answers):
+        if "error" in a or a.get("outcome") != "ok" or c["_real"]["outcome"] != "ok":
+            continue
+        if classify(c):
+            continue
+        real = c["_real"]
+        sq = squared_cols(c["model"], c["query"], real["columns"])
+        rrows = canon_rows(real["rows"], sq)
+        spec = [tuple(r) for r in S.lean_rows(a["spec_body"])]
+        if real["columns"] != a["spec_columns"] or not bag_equal(rrows, spec):
+            ck.fail_input("single-model query result differs from the defined aggregates (found by directed search after a correspondence break)",
+                          {"case": strip(c), "real_rows": duck.show(real["rows"]), "expected_body": [[str(v) for v in r] for r in spec[:12]], "sql": real["sql"]})
+            break
+    stats["search_cases"] = len(todo)
 
 
 def strip(case):
@@ -227,13 +273,15 @@ def run(ck: Check):
             ck.obligation("correspondence C01 (driver error)", False, f"{a['error']} case={canon(strip(c))[:600]}")
             continue
         check_case(ck, c, a, stats)
+    if stats["disagree"] and not ck.failing:
+        directed_search(ck, [c for c in cases if c.get("_mismatch")], stats)
     if stats["disagree"] == 0:
         ck.obligation("correspondence C01: SQLGenerator vs genSingle (structural + behavioural)", True, f"{len(cases)} cases agree")
     aggs = Counter(x["agg"] for c in cases for x in c["model"]["measures"])
     ck.coverage.update({
         "evaluations": len(cases), "distinct_nontrivial": len(stats["nontrivial"]),
         "rule": "random model (table/sql-backed, single/composite pk, {model} placeholders, expression dims, time dims with base granularity, every aggregation, metric filters) x table (0..30 rows, NULLs, duplicates, negatives) x 3 queries (dims/metrics subsets, granularities, filters of every form incl. hostile literals and metric-value filters, order/limit/offset incl. 0, ungrouped, aliases); non-trivial = table has >= 2 rows and the query selects something",
-        "outcome_distribution": dict(stats["outcomes"]), "aggregations": dict(aggs), "disagreements": stats["disagree"],
+        "outcome_distribution": dict(stats["outcomes"]), "aggregations": dict(aggs), "disagreements": stats["disagree"], "cases_inside_theorem_C01_grouped": stats.get("covered", 0),
         "traces_validated_against_impl": len(cases),
         "samples": [strip(cases[1]), strip(cases[-1])],
     })
